@@ -35,7 +35,7 @@ def history(args):
     N.build_forest(family, par, ch)
     strict = N.FAMILIES[family]["strict"]
     objs = N.Ctx.objs
-    ops, queries, resolver_events, recent, asked, hits = [], [], [], [], [], []
+    ops, queries, resolver_events, recent, asked, hits, exports, other_events = [], [], [], [], [], [], [], []
     hid = "%s-%d" % (family, seed)
     names = None
     if family in ("node", "anynode", "mixin"):
@@ -140,6 +140,54 @@ def history(args):
                 del hits[:-4]
             N.Ctx.log = saved
             resolver_events.append(ev)
+        elif r < 0.85 and names is not None:
+            # ---- RenderTree / DictExporter / DotExporter / MermaidExporter on the live objects (re-asked like the queries)
+            from anytree import AsciiStyle, PreOrderIter, RenderTree
+            from anytree.exporter import DictExporter, DotExporter, MermaidExporter
+            from . import export_replay, render_replay
+
+            if exports and rnd.random() < 0.5:
+                kind, start, ml, extra = rnd.choice(exports)
+            else:
+                kind = rnd.choice(("render", "dict", "graph"))
+                start, ml = rnd.choice(labels), rnd.choice((query_replay.NOMAX, query_replay.NOMAX, 0, 1, 2, 3))
+                extra = rnd.choice(("list", "reversed")) if kind != "graph" else (sorted(rnd.sample(labels, rnd.choice((0, 0, 1)))), sorted(rnd.sample(labels, rnd.choice((0, 0, 1, 2)))))
+                exports.append((kind, start, ml, extra))
+                del exports[:-5]
+            pyml = None if ml == query_replay.NOMAX else ml
+            lab = N.label
+            saved = N.Ctx.log
+            N.Ctx.log = None
+            eid = "%s.%d" % (hid, step)
+            try:
+                if kind == "render":
+                    segs = render_replay.seg_strings(AsciiStyle())
+                    ci = list if extra == "list" else (lambda c: list(reversed(c)))
+                    rows = [{"pre": render_replay.derender(rw.pre, segs), "fill": render_replay.derender(rw.fill, segs), "node": lab(rw.node)}
+                            for rw in RenderTree(objs[start], style=AsciiStyle(), childiter=ci, maxlevel=pyml)]
+                    other_events.append(("TraceRender", {"id": eid, "par": prepar, "ch": prech, "s": start,
+                                                         "ci": {"kind": extra, "hide": [], "key": {l: i for i, l in enumerate(labels)}}, "ml": ml,
+                                                         "nl": {l: 1 for l in labels}, "rows": rows, "text": [], "hastext": False}))
+                elif kind == "dict":
+                    ci = list if extra == "list" else (lambda c: list(reversed(c)))
+                    got = DictExporter(childiter=ci, maxlevel=pyml).export(objs[start])
+                    attrs = {l: [["name", names[l]]] for l in labels}
+                    other_events.append(("TraceExport", {"id": eid, "q": "dict_export", "par": prepar, "ch": prech, "attrs": attrs, "s": start,
+                                                         "o": {"attriter": "none", "ml": ml, "ci": {"kind": extra, "hide": [], "key": {l: i for i, l in enumerate(labels)}}},
+                                                         "obs": export_replay.derender_dict(got, sorted(set(names.values())))}))
+                else:
+                    hide, st = extra
+                    fls, sts = set(labels) - set(hide), set(st)
+                    kw = dict(filter_=lambda n: lab(n) in fls, stop=lambda n: lab(n) in sts, maxlevel=pyml)
+                    it = [lab(x) for x in PreOrderIter(objs[start], **kw)]
+                    id2 = {l: l for l in labels}
+                    for gk, cls in (("dot", DotExporter), ("mermaid", MermaidExporter)):
+                        lines = list(cls(objs[start], nodenamefunc=lambda n: lab(n), **kw))
+                        other_events.append(("TraceExport", {"id": eid + gk, "q": "graph", "kind": gk, "par": prepar, "ch": prech, "s": start, "st": sorted(st),
+                                                             "fl": sorted(fls), "ml": ml, "iter": it, "obs": export_replay.derender_graph(gk, lines, 1, id2)}))
+            except Exception as e:  # noqa
+                other_events.append(("raised", {"id": eid, "kind": kind, "raised": "%s: %s" % (type(e).__name__, str(e)[:200])}))
+            N.Ctx.log = saved
         else:
             # ---- a query on the live objects (half of the time: an earlier query again, which exposes stale caches)
             q = rnd.choice(("nav", "nav", "common", "iters", "iters", "iters", "walk", "find", "findall", "sweep"))
@@ -177,4 +225,4 @@ def history(args):
             after = N.snapshot()
             queries.append({"id": "%s.%d" % (hid, step), "par": prepar, "ch": prech, "query": query, "obs": obs,
                             "changed": after != (prepar, prech)})
-    return {"ops": ops, "queries": queries, "resolver": resolver_events, "family": family, "seed": seed}
+    return {"ops": ops, "queries": queries, "resolver": resolver_events, "other": other_events, "family": family, "seed": seed}
